@@ -109,8 +109,8 @@ func vtsTickStep(t core.SuDate) {
 type vtsVariant struct{ kind, count, nev, day int }
 
 var vtsQuick = []vtsVariant{{0, 0, 4, 0}, {1, 3, 3, 0}, {2, 254, 3, 0}}
-var vtsThorough = []vtsVariant{{0, 0, 6, 0}, {0, 0, 3, 1}, {0, 0, 3, 2}, {0, 0, 3, 3},
-	{1, 3, 4, 0}, {1, 4, 4, 0}, {2, 1, 4, 0}, {2, 254, 4, 0}, {2, 255, 4, 0}}
+var vtsThorough = []vtsVariant{{0, 0, 5, 0}, {0, 0, 3, 1}, {0, 0, 3, 2}, {0, 0, 3, 3},
+	{1, 3, 4, 0}, {1, 4, 4, 0}, {2, 254, 4, 0}, {2, 255, 4, 0}}
 
 // C34: a server and two client processes A and B (each with its own copy of the client-side
 // batching state of core/thread.go; the harness swaps the globals in and out) plus callers that
@@ -132,7 +132,7 @@ var vtsThorough = []vtsVariant{{0, 0, 6, 0}, {0, 0, 3, 1}, {0, 0, 3, 2}, {0, 0, 
 // lexicographic order on (date, time, extra) and by the values' own Compare; a value with an
 // extra byte never has extra = 0.
 //
-//symgo:harness prop=C34 tier=quick shards=8 tshards=16 timeout=400 ttimeout=1700 preempt=0 summary=(github.com/apmckinlay/gsuneido/core.SuDate).Plus=vsumPlus bounds=scripts_of_4_(thorough_6)_events_from_{clock_tick_with_an_arbitrary_time,direct_request,client_A_request,client_B_request,expiry_of_A,expiry_of_B}_from_empty_client_batches;scripts_of_3_(4)_events_with_client_A_at_count_3_of_a_5-ms_batch_or_at_count_254_of_a_256-value_batch_fetched_at_any_time_with_ms_<_500_resp._500..998_(thorough:_counts_3,4_and_1,254,255;_ms_500..999),_the_server_anywhere_later;server_timestamp_starts_at_any_time_of_day_and_millisecond_on_2025-06-15_(thorough:_3-event_scripts_also_from_Feb_28_leap/non-leap,_Dec_31);skipped_as_covered_by_other_scripts:_scripts_ending_without_a_request,_mirror_images_A<->B,_expiry_of_an_expired_batch outside=SuDate.Plus_(reached_only_for_the_+1_ms_roll-over_at_ms_999)_is_replaced_by_its_contract_in_the_engine_(property_C33;_the_real_one_is_compared_in_the_native_conformance_replays);the_ticker_and_tsExpire_goroutines_themselves_(their_loop_bodies_are_run_as_events;_the_real_ticker_runs_in_VerifC34Ticker);the_client-server_wire_transfer;server_restart_within_the_same_second_(990_ms_head_start);more_than_2_clients
+//symgo:harness prop=C34 tier=quick shards=8 tshards=16 timeout=400 ttimeout=1700 preempt=0 summary=(github.com/apmckinlay/gsuneido/core.SuDate).Plus=vsumPlus bounds=scripts_of_4_(thorough_5)_events_from_{clock_tick_with_an_arbitrary_time,direct_request,client_A_request,client_B_request,expiry_of_A,expiry_of_B}_from_empty_client_batches;scripts_of_3_(4)_events_with_client_A_at_count_3_of_a_5-ms_batch_or_at_count_254_of_a_256-value_batch_fetched_at_any_time_with_ms_<_500_resp._500..998_(thorough:_counts_3,4_and_254,255;_ms_500..999),_the_server_anywhere_later;server_timestamp_starts_at_any_time_of_day_and_millisecond_on_2025-06-15_(thorough:_3-event_scripts_also_from_Feb_28_leap/non-leap,_Dec_31);skipped_as_covered_by_other_scripts:_scripts_ending_without_a_request,_mirror_images_A<->B,_expiry_of_an_expired_batch outside=SuDate.Plus_(reached_only_for_the_+1_ms_roll-over_at_ms_999)_is_replaced_by_its_contract_in_the_engine_(property_C33;_the_real_one_is_compared_in_the_native_conformance_replays);the_ticker_and_tsExpire_goroutines_themselves_(their_loop_bodies_are_run_as_events;_the_real_ticker_runs_in_VerifC34Ticker);the_client-server_wire_transfer;server_restart_within_the_same_second_(990_ms_head_start);more_than_2_clients
 func VerifC34Ts() {
 	vars := vtsQuick
 	if rt.Thorough() {
